@@ -287,13 +287,15 @@ def gen_ops(rng, n, weights=None, pool_uids=0):
 class Session:
     """One history on one real file, mirrored as lines for the Lean model."""
 
-    def __init__(self, path, uid_pool=None):
+    def __init__(self, path, uid_pool=None, project=None):
         from geoh5py.workspace import Workspace
         warnings.filterwarnings("ignore")
         self.path = str(path)
         self.uids = Uids()
         self.pool = uid_pool or []
-        self.ws = Workspace.create(self.path)
+        # some files carry a project node with a name of their own (`Workspace.create(path, name=...)`); re-opening them goes
+        # through plain `Workspace(path)` like any other file
+        self.ws = Workspace.create(self.path, **({"name": project} if project else {}))
         self.lines = []        # driver lines
         self.expect = []       # what the implementation showed after each line
         self.events = []       # human-readable trace
